@@ -420,6 +420,16 @@ func TestC20CLI(t *testing.T) {
 		jf := filepath.Join(dir, "doc.json")
 		_ = os.WriteFile(sf, []byte(script), 0o644)
 		jb, _ := json.Marshal(eng.NaturalGo(doc))
+		if gen.Uniform(rt, "oddjson", 6) == 0 {
+			// files that are not (only) one JSON document: what json.Unmarshal
+			// refuses, the driver refuses - whatever the file begins with
+			tail := rapid.SampledFrom([]string{"}", " x", "\n{\"Late\": 1}", ",", "\n\n", " ", "[]", "null", "\x00", "//c"}).Draw(rt, "jsontail")
+			jb = append(jb, []byte(tail)...)
+			if rapid.Bool().Draw(rt, "jsontruncate") && len(jb) > 3 {
+				jb = jb[:rapid.IntRange(0, len(jb)-1).Draw(rt, "jsoncut")]
+			}
+			col.Class("cli-json-not-one-document")
+		}
 		_ = os.WriteFile(jf, jb, 0o644)
 		args := []string{"run"}
 		if withJSON {
@@ -462,13 +472,18 @@ func TestC20CLI(t *testing.T) {
 		}
 		// in-process reference: Execute on the decoded document
 		obj := map[string]interface{}{}
+		jsonBad := false
 		if withJSON {
-			_ = json.Unmarshal(jb, &obj)
+			if jerr := json.Unmarshal(jb, &obj); jerr != nil {
+				jsonBad = true
+			}
 		}
 		ref := eng.NewRunner(script)
 		perr, _ := ref.Prepare(noOpt)
 		var want string
-		if perr != nil {
+		if jsonBad {
+			want = "Error parsing JSON"
+		} else if perr != nil {
 			want = "Error compiling:"
 		} else {
 			res := ref.Execute(obj)
@@ -483,7 +498,9 @@ func TestC20CLI(t *testing.T) {
 			// the report of the first file comes first; then the one under test
 			fr := eng.NewRunner(first)
 			fwant := "Error compiling:"
-			if first == "while ( true ) { }" {
+			if jsonBad {
+				fwant = "Error parsing JSON" // the document is read anew for every script
+			} else if first == "while ( true ) { }" {
 				fwant = "Failed to run script:"
 			} else if perr1, _ := fr.Prepare(noOpt); perr1 == nil {
 				if r1 := fr.Execute(obj); r1.Err != nil {
